@@ -240,6 +240,14 @@ def merge_study_metadata(
   )
 
 
+def _same_trial_id(a: str, b: str) -> bool:
+  """Trial ids are integers written as strings: '01' and '1' name one trial."""
+  try:
+    return int(a) == int(b)
+  except ValueError:
+    return a == b
+
+
 def merge_trial_metadata(
     trial_proto: study_pb2.Trial,
     new_metadata: Iterable[vizier_service_pb2.UnitMetadataUpdate],
@@ -256,7 +264,7 @@ def merge_trial_metadata(
   for kv in trial_proto.metadata:
     metadata_dict[(kv.ns, kv.key)] = kv
   for md_update in new_metadata:
-    if md_update.trial_id == trial_proto.id:
+    if _same_trial_id(md_update.trial_id, trial_proto.id):
       metadata_dict[(md_update.metadatum.ns, md_update.metadatum.key)] = (
           md_update.metadatum
       )
